@@ -77,9 +77,13 @@ def fit(prog: Program, res: Result) -> None:
     for n in ast.walk(fi.node):
         if isinstance(n, ast.If) and ast.unparse(n.test).replace(" ", "") in ("normX==0", "0==normX"):
             k += 1
-            zero = {a.targets[0].id: a.value for a in n.body if isinstance(a, ast.Assign) and isinstance(a.targets[0], ast.Name)}
-            nonz = {a.targets[0].id: a.value for a in n.orelse if isinstance(a, ast.Assign) and isinstance(a.targets[0], ast.Name)}
-            ipx = "iprod" if "iprod" in ast.unparse(n) else "input_tensor.innerprod(M)"
+            keep = ("iprod", "normX", "fit", "normresidual", "M")
+            zero = {a.targets[0].id: fi.resolve(a.value, keep=keep) for a in n.body if isinstance(a, ast.Assign) and isinstance(a.targets[0], ast.Name)}
+            nonz = {a.targets[0].id: fi.resolve(a.value, keep=keep) for a in n.orelse if isinstance(a, ast.Assign) and isinstance(a.targets[0], ast.Name)}
+            import re as _re
+            ipx = "iprod" if _re.search(r"(?<![A-Za-z0-9_])iprod(?![A-Za-z0-9_])", ast.unparse(n)) else "input_tensor.innerprod(M)"
+            if ipx != "iprod" and not any("innerprod" in ast.unparse(v) for v in list(zero.values()) + list(nonz.values())):
+                continue
             roles = {"normX": nX, "M.norm()": nM, ipx: ip}
             site = "in the iteration" if ipx == "iprod" else "in the final recomputation"
             for branch, defs, want_fit, want_res, label in (
@@ -101,12 +105,43 @@ def fit(prog: Program, res: Result) -> None:
     # inner product from the saved MTTKRP of the last mode, weights applied
     desc = "<X,M> uses the MTTKRP saved for the LAST mode of dimorder, the matching factor and the weights"
     defs = A.single_defs(fi.node)
+    # "the last mode of the sweep": dimorder[-1] read AFTER dimorder has been restricted to the optimised modes, directly or
+    # through a local defined at such a point
+    dim_defs = [a.lineno for a in ast.walk(fi.node) if isinstance(a, ast.Assign) and any(isinstance(t_, ast.Name) and t_.id == "dimorder" for t_ in a.targets)]
+    last_dim_def = max(dim_defs, default=0)
+    last_names = {}
+    for a in ast.walk(fi.node):
+        if isinstance(a, ast.Assign) and len(a.targets) == 1 and isinstance(a.targets[0], ast.Name) and ast.unparse(a.value).replace(" ", "") == "dimorder[-1]":
+            last_names[a.targets[0].id] = a
+
+    def norm_last(txt: str):
+        """text with valid last-mode locals spelled dimorder[-1]; (text, stale local or None)"""
+        stale = None
+        for nm, a in last_names.items():
+            if nm in txt:
+                if a.lineno > last_dim_def and len([d for d in defs.get(nm, [])]) == 1:
+                    txt = txt.replace(nm, "dimorder[-1]")
+                else:
+                    stale = nm
+        return txt, stale
     if "iprod" in defs:
-        t = ast.unparse(defs["iprod"][0].value).replace(" ", "")
-        saved = [a for a in ast.walk(fi.node) if isinstance(a, ast.If) and "dimorder[-1]" in ast.unparse(a.test) and "U_mttkrp" in ast.unparse(a)]
+        t, stale1 = norm_last(ast.unparse(defs["iprod"][0].value).replace(" ", ""))
+        saved = []
+        stale2 = None
+        for a in ast.walk(fi.node):
+            if isinstance(a, ast.If) and "U_mttkrp" in ast.unparse(a):
+                tt, st_ = norm_last(ast.unparse(a.test).replace(" ", ""))
+                stale2 = stale2 or st_
+                if "dimorder[-1]" in tt:
+                    saved.append(a)
         ok = "M.factor_matrices[dimorder[-1]]*U_mttkrp" in t and "*weights" in t and bool(saved)
         if ok:
             res.ok("FIT", F, desc, prog.loc(fi, defs["iprod"][0]))
+        elif stale1 or stale2:
+            nm = stale1 or stale2
+            res.bad("FIT", F, desc, prog.loc(fi, last_names[nm]),
+                    f"`{nm} = dimorder[-1]` is read before dimorder is restricted to the optimised modes (line {last_dim_def}): the saved MTTKRP and the "
+                    "factor used for <X,M> then belong to a mode that may not be the last one updated")
         else:
             res.bad("FIT", F, desc, prog.loc(fi, defs["iprod"][0]), f"iprod = {t[:120]}; MTTKRP saved under: {[ast.unparse(a.test) for a in saved]}")
     else:
@@ -152,7 +187,7 @@ def gram(prog: Program, res: Result) -> None:
     ys = [a for a in ast.walk(fi.node) if isinstance(a, ast.Assign) and isinstance(a.targets[0], ast.Name) and a.targets[0].id == "Y"
           and "UtU" in ast.unparse(a.value)]
     if ys:
-        t = ast.unparse(ys[0].value).replace(" ", "")
+        t = fi.rtext(ys[0].value).replace(" ", "")
         if "i!=n" in t or "n!=i" in t:
             res.ok("GRAM", F, desc, prog.loc(fi, ys[0]), t[:100])
         else:
